@@ -47,6 +47,21 @@ CHECKS = {
    text="Trace validation of histories with Merge at random quiescent points (also twice in a row, with fewer than two files, and with an I/O fault injected at a random file mutation inside Merge): each merge event carries the full observation of the running process and of a reopened copy taken right after the call, and TLC accepts it only if both equal the unchanged model state (mem and Replay(log)); the histories continue with writes, reads, shadow and real reopens, so writes after Merge are checked for durability. KV histories (TTL, deletes, failed transactions) run in both RAM modes and are judged to the end; set/sorted-set histories without SMove likewise; on histories with list records the pinned tree deviates (known finding F-C15-1) and the remainder of that history is not judged.",
    note="Trusts TLC and the recording wrapper. MergePreserves is model-checked on NutsMC only at API grain (Merge is a stuttering step of the specification).",
    technique="TLA+ trace validation with TLC (code -> spec) with fault injection + bounded model checking of NutsMC"),
+ "C10": dict(
+   cat="model_checking", design="DESIGN.md section 6 C10",
+   text="Crash images validated by TLC: a workload (multi-record transactions spanning rotations, rollbacks, an oversized-entry failure followed in the same millisecond by a committing transaction, reopen; all structures in HintKeyValAndRAMIdxMode, KV in both RAM modes; FileIO and MMap; SyncEnable on and off) runs with the verifFS hook recording every file mutation; the directory is then rebuilt for every mutation point and, for each write, with the write torn at record-field boundaries (quick: 5 boundaries, thorough: every header field, bucket, key, value-1); the real Open runs on each image in a child process and the recorded observation is a 'crash' event placed before the call it interrupted. TLC (NutsTrace!TrCrash) accepts it only if Open succeeded and served Replay(log) of the transactions that had returned, or that plus the in-flight transaction in full.",
+   note="Trusts TLC, the recording wrapper and the image builder (the observer's final image is compared with the real directory after every workload; an unhooked mutation site is an infrastructure error). A process crash keeps every completed write; sparse mode images are judged under C02.",
+   technique="TLA+ trace validation with TLC of crash images built from hook-recorded file mutations"),
+ "C11": dict(
+   cat="model_checking", design="DESIGN.md section 6 C11",
+   text="As C10 with SyncEnable=true and the power-loss image rule: at every mutation point each file reverts to its content at its last sync; the unsynced writes after it are dropped, or the first is kept torn at a record-field boundary; unsynced file creations and removals are kept or undone. The real Open runs on each image; TLC accepts only success serving the returned transactions (plus possibly the in-flight one in full).",
+   note="Assumes, as the statement does, that a sync of a file also makes its directory entry durable. Out-of-order persistence of several unsynced writes is not generated (with SyncEnable the code never has more than one unsynced data write). Trusts TLC, the recording wrapper and the image builder.",
+   technique="TLA+ trace validation with TLC of power-loss images built from hook-recorded file mutations"),
+ "C16": dict(
+   cat="model_checking", design="DESIGN.md section 6 C16",
+   text="As C10 restricted to the file mutations inside Merge (creation of rewrite files, rewritten records, removals, torn writes): for every such point of every generated pre-merge history the directory is rebuilt, the real Open runs on it, and TLC accepts only success serving exactly Replay(log) - the contents before Merge. KV histories (both RAM modes, FileIO/MMap) are judged strictly; with list or sorted-set records the pinned tree deviates (known finding F-C16-1: operation records are replayed twice or in a different order).",
+   note="Trusts TLC, the recording wrapper and the image builder.",
+   technique="TLA+ trace validation with TLC of crash images built from hook-recorded file mutations inside Merge"),
  "C01": dict(
    cat="model_checking", design="DESIGN.md section 6 C01",
    text="Trace validation: seeded random KV histories (multi-bucket, TTL on both sides of expiry, segments of 128-512 bytes so nearly every transaction rotates, reopen) are executed on the real library in HintKeyValAndRAMIdxMode and HintKeyAndRAMIdxMode x FileIO and MMap, every call is recorded, and TLC accepts the trace only if every Get/GetAll/RangeScan/PrefixScan/PrefixSearchScan result equals the KVSpec ordered-map-with-TTL result on the specification state (Nuts.tla). The API-grain design is model-checked exhaustively for a small universe (NutsMC_kv.cfg).",
